@@ -246,7 +246,7 @@ class Runner:
                 break
             self.ev.append(e)
         return {"algo": self.algo, "actor": self.actor, "lamb": self.lamb, "gamma": self.gamma, "nslots": self.nslots,
-                "nfiles": self.nfiles, "seed": self.seed, "ops": [list(o) for o in ops], "ev": self.ev}
+                "nfiles": self.nfiles, "seed": self.seed, "arms": self.arms, "ops": [list(o) for o in ops], "ev": self.ev}
 
 
 def run_script(algo, actor, lamb, gamma, ops, seed=0, nslots=3, nfiles=2, arms=3):
@@ -278,8 +278,10 @@ def _micro(x: float) -> int:
 
 
 def _hdr(raw, lam: Fraction, mode: str):
+    import json
     return {"algo": raw["algo"], "actor": raw["actor"], "lamb": raw["lamb"], "gamma": raw["gamma"], "lam": [lam.numerator, lam.denominator],
-            "mode": mode, "seed": raw["seed"], "ops": str(raw["ops"])}
+            "mode": mode, "kind": "exact" if raw["actor"] in ("lin", "linb") else "inexact",
+            "seed": raw["seed"], "arms": raw["arms"], "ops": json.dumps(raw["ops"])}
 
 
 def exact_trace(raw, lam: Fraction, mode: str):
